@@ -158,28 +158,78 @@ def compare(c, o):
     return None
 
 
-# ---------------------------------------------------------------- read-only contents (unprivileged workers)
-RO_CASES = [
-    ('ro-dir-in-act', ['dir d', 'file d/f = x', '$ chmod a-w d']),
-    ('ro-file-in-act', ['file f = x', '$ chmod a-w f']),
-    ('ro-dir-in-tmp', ['dir -rel-tmp d', 'file -rel-tmp d/f = x', '$ chmod a-w ../tmp/d']),
-    ('ro-nested', ['dir d/e', 'file d/e/f = x', '$ chmod a-w d/e', '$ chmod a-w d']),
-    ('ro-act-itself', ['file f = x', '$ chmod a-w .']),
-]
+# ---------------------------------------------------------------- what a case may leave (unprivileged workers)
+# kind -> (setup lines, entries whose kind and permission bits are compared in a kept sandbox)
+LEFT = {
+    'ro-dir-in-act': (['dir d', 'file d/f = x', '$ chmod a-w d'], ['act/d', 'act/d/f']),
+    'ro-file-in-act': (['file f = x', '$ chmod a-w f'], ['act/f']),
+    'ro-dir-in-tmp': (['dir -rel-tmp d', 'file -rel-tmp d/f = x', '$ chmod a-w ../tmp/d'], ['tmp/d', 'tmp/d/f']),
+    'ro-nested': (['dir d/e', 'file d/e/f = x', '$ chmod a-w d/e', '$ chmod a-w d'], ['act/d', 'act/d/e', 'act/d/e/f']),
+    'ro-act-itself': (['file f = x', '$ chmod a-w .'], ['act', 'act/f']),
+    'no-access-dir': (['dir d', 'file d/f = x', '$ chmod 000 d'], ['act/d']),
+    'link-to-dir': (['dir real', 'file real/f = x', '$ ln -s real link'], ['act/real', 'act/link', 'act/real/f']),
+    'link-to-file': (['file real.txt = x', '$ ln -s real.txt link'], ['act/real.txt', 'act/link']),
+    'dangling-link': (['$ ln -s nowhere link'], ['act/link']),
+    'link-to-dir-outside': (['$ ln -s "$VERIF_OUTSIDE" link'], ['act/link']),
+}
+
+
+def _lstat_sig(p):
+    import stat
+    try:
+        st = os.lstat(p)
+    except OSError as ex:
+        return 'missing:%s' % type(ex).__name__
+    kind = 'link' if stat.S_ISLNK(st.st_mode) else 'dir' if stat.S_ISDIR(st.st_mode) else 'file'
+    return '%s:%o%s' % (kind, stat.S_IMODE(st.st_mode) if kind != 'link' else 0,
+                        (':' + os.readlink(p)) if kind == 'link' else '')
 
 
 def exec_ro(task, cd):
+    """The case is run twice: stopped right before the end ([cleanup] fails: --keep) to learn how it LEAVES its
+    sandbox is not possible from outside - instead the entries are compared with what the same setup lines produce
+    when run by a shell in a scratch directory (reference), which needs no knowledge of Exactly."""
     from harness import inproc
-    name, lines, ending, keep = task
+    import subprocess
+    name, ending, keep = task
+    lines, watch = LEFT[name]
+    outside = os.path.join(cd.out, 'outside-dir')
+    os.makedirs(outside, exist_ok=True)
+    with open(os.path.join(outside, 'precious.txt'), 'w') as fh:
+        fh.write('precious')
     text = '[setup]\n' + '\n'.join(lines) + '\n[act]\n$ echo hi\n'
     if ending == 'fail':
         text += '[assert]\nexit-code == 1\n'
     elif ending == 'hard':
         text += '[before-assert]\n$ exit 1\n'
     cd.write({'c.case': text})
-    r = inproc.run_main((['--keep'] if keep else []) + ['c.case'], cd)
-    return dict(exit=r['exit'], exception=r['exception'], stdout=r['stdout'][:200], stderr=r['stderr'][:300],
-                sandboxes=cd.sandboxes(), uid=os.getuid(), text=text)
+    r = inproc.run_main((['--keep'] if keep else []) + ['c.case'], cd, env={'VERIF_OUTSIDE': outside})
+    boxes = cd.sandboxes()
+    res = dict(exit=r['exit'], exception=r['exception'], stdout=r['stdout'][:200], stderr=r['stderr'][:300],
+               sandboxes=boxes, uid=os.getuid(), text=text,
+               outside=sorted(os.listdir(outside)) if os.path.isdir(outside) else None)
+    if keep and len(boxes) == 1:
+        root = os.path.join(cd.tmp, boxes[0])
+        res['kept'] = {w: _lstat_sig(os.path.join(root, w)) for w in watch}
+        # reference: the same lines by a plain shell in a scratch "act" directory beside a "tmp" directory
+        ref = os.path.join(cd.out, 'ref')
+        os.makedirs(os.path.join(ref, 'act'))
+        os.makedirs(os.path.join(ref, 'tmp'))
+        sh = []
+        for l in lines:
+            if l.startswith('$ '):
+                sh.append(l[2:])
+            elif l.startswith('dir -rel-tmp '):
+                sh.append('mkdir -p ../tmp/' + l.split()[-1])
+            elif l.startswith('dir '):
+                sh.append('mkdir -p ' + l.split()[-1])
+            elif l.startswith('file -rel-tmp '):
+                sh.append('printf x > ../tmp/' + l.split()[2])
+            elif l.startswith('file '):
+                sh.append('printf x > ' + l.split()[1])
+        subprocess.run(['sh', '-c', '\n'.join(sh)], cwd=os.path.join(ref, 'act'), env=dict(os.environ, VERIF_OUTSIDE=outside))
+        res['reference'] = {w: _lstat_sig(os.path.join(ref, w)) for w in watch}
+    return res
 
 
 def run(ctx):
@@ -212,29 +262,37 @@ def run(ctx):
         rnd = random.Random(ctx.seed)
         items = rnd.sample(items, min(600, len(items)))
     trace_exec.validate(ctx, items, 'sandbox cases')
-    # read-only contents, as an unprivileged user
-    ro_tasks = [(n, l, e, k) for (n, l) in RO_CASES for e in ('pass', 'fail', 'hard') for k in (False, True)]
+    # what a case may leave in its sandbox (table LeftRows of the specification), as an unprivileged user
+    rows = exp.printed_json('LEFT')[0]
+    ro_tasks = [(r['row']['kind'], r['row']['ending'], bool(r['row']['keep'])) for r in rows]
+    ro_exp = [r['exp'] for r in rows]
+    if len(ro_tasks) < 40 or set(t[0] for t in ro_tasks) != set(LEFT):
+        raise core.MachineryFailure('table of left-behind entries: %d rows' % len(ro_tasks))
     with ctx.pool(workers=4, unprivileged=True) as pool:
         ro_obs = pool.map('harness.props.c04:exec_ro', ro_tasks, deadline=60, chunk=2)
-    for t, o in zip(ro_tasks, ro_obs):
+    for t, e, o in zip(ro_tasks, ro_exp, ro_obs):
         ctx.count()
-        ctx.nontrivial('ro:' + json.dumps(t))
-        name, lines, ending, keep = t
+        ctx.nontrivial('left:' + json.dumps(t))
+        name, ending, keep = t
         problem = None
         if o.get('exception') or o.get('no_termination') or o.get('harness_exception') or o.get('worker_died'):
             problem = 'Terminates/NoEscapingException'
         elif o['uid'] == 0:
             raise core.MachineryFailure('unprivileged worker runs as root')
-        elif o['exit'] != {'pass': 0, 'fail': 32, 'hard': 128}[ending]:
-            problem = 'Verdict: exit %s' % o['exit']
-        elif not keep and o['sandboxes']:
-            problem = 'RemovedAtEnd: read-only contents, %s left' % o['sandboxes']
-        elif keep and len(o['sandboxes']) != 1:
+        elif o['exit'] != e['exit']:
+            problem = 'Verdict: exit %s, specification %s' % (o['exit'], e['exit'])
+        elif o['outside'] != ['precious.txt']:
+            problem = 'OutsideUntouched: %s' % o['outside']
+        elif e['sandbox'] == 'removed' and o['sandboxes']:
+            problem = 'RemovedAtEnd: %s left' % o['sandboxes']
+        elif e['sandbox'] == 'kept-as-left' and len(o['sandboxes']) != 1:
             problem = 'KeptAtEnd'
+        elif e['sandbox'] == 'kept-as-left' and o.get('kept') != o.get('reference'):
+            problem = 'KeptAsLeft: %s, as the case left it %s' % (o.get('kept'), o.get('reference'))
         if problem:
             ctx.fail('%s %s ending=%s keep=%s' % (problem.split(':')[0], name, ending, keep),
-                     dict(kind='ro', task=t, observed=o, clause=problem),
-                     explained_by=('D8' if problem.startswith('RemovedAtEnd') else None))
+                     dict(kind='ro', task=t, expected=e, observed=o, clause=problem),
+                     explained_by=('D8' if problem.startswith('RemovedAtEnd') and name.startswith('ro-') else None))
     ctx.cov['traces_validated_against_impl'] += len(ro_tasks)
     ctx.cov['read_only_cases'] = len(ro_tasks)
     # negative controls
@@ -289,7 +347,12 @@ def replay(ctx, rec):
         with ctx.pool(workers=1, unprivileged=True) as pool:
             o = pool.map('harness.props.c04:exec_ro', [tuple(r['task'])], deadline=60)[0]
         print(json.dumps(o, indent=1))
-        if not r['task'][3] and o.get('sandboxes'):
+        e = r.get('expected') or {}
+        bad = (o.get('exception') or o.get('exit') != e.get('exit') or o.get('outside') != ['precious.txt']
+               or (e.get('sandbox') == 'removed' and o.get('sandboxes'))
+               or (e.get('sandbox') == 'kept-as-left' and (len(o.get('sandboxes', [])) != 1
+                                                           or o.get('kept') != o.get('reference'))))
+        if bad:
             print('VIOLATION property=C04 replay=(given)')
             return 1
         return 0
